@@ -1863,14 +1863,32 @@ class Exists(QuantifiedConditional):
     ) -> Iterable[OperationResult]:
         sources = sources or {}
         self._eval_parent_ = parent
-        # one result per binding of the variables the quantified expression ranges over, compared by identity
-        variable_ids = [v._id_ for v in self.variable._all_variable_instances_]
-        seen_variable_bindings = set()
+        # One result per binding of the free variables (every variable of the condition except a quantified plain
+        # variable; the variable an attribute chain starts from is free), compared by identity: true as soon as one value
+        # of the quantified expression satisfies the condition, false when none does.
+        free_ids = [
+            v._id_ for v in self._all_variable_instances_ if v is not self.variable
+        ]
+        satisfied = set()
+        unsatisfied = {}
         for val in self.condition._evaluate__(sources, parent=self):
-            binding = tuple(val[i].id_ for i in variable_ids if i in val)
-            if val.is_true and binding not in seen_variable_bindings:
-                seen_variable_bindings.add(binding)
+            binding = tuple(val[i].id_ for i in free_ids if i in val)
+            if binding in satisfied:
+                continue
+            if val.is_true:
+                satisfied.add(binding)
+                unsatisfied.pop(binding, None)
+                self._is_false_ = False
                 yield OperationResult(val.bindings, False, self)
+            else:
+                unsatisfied.setdefault(binding, val.bindings)
+        for bindings in unsatisfied.values():
+            self._is_false_ = True
+            yield OperationResult(
+                {k: v for k, v in bindings.items() if k != self.variable._id_},
+                True,
+                self,
+            )
 
     def _invert_(self):
         return ForAll(self.variable, self.condition._invert_())
